@@ -407,6 +407,42 @@ def groupby_object_writes(tree):
     return writes, unify, cached
 
 
+def nanops_dispatch(tree):
+    """reduce_1d's choice of (skipna, initial value, reduction of the chunk results) per kind of reducer name:
+    rows (condition, skipna, initial_value, chunk_reduction) in source order"""
+    fns = [n for n in tree.body if isinstance(n, ast.FunctionDef) and n.name == "reduce_1d"]
+    if len(fns) != 1:
+        raise Unsupported("nanops.reduce_1d not found exactly once")
+    chains = [n for n in fns[0].body if isinstance(n, ast.If) and any(
+        isinstance(x, ast.Assign) and isinstance(x.targets[0], ast.Name) and x.targets[0].id == "chunk_reduction" for x in n.body)]
+    if len(chains) != 1:
+        raise Unsupported("reduce_1d: dispatch chain not found exactly once")
+    rows = []
+
+    def branch(cond, body):
+        kw = [x for x in body if isinstance(x, ast.Assign) and isinstance(x.targets[0], ast.Name) and x.targets[0].id == "kwargs"]
+        cr = [x for x in body if isinstance(x, ast.Assign) and isinstance(x.targets[0], ast.Name) and x.targets[0].id == "chunk_reduction"]
+        if len(kw) != 1 or len(cr) != 1 or len(body) != 2:
+            fail(body[0], "reduce_1d dispatch branch")
+        call = kw[0].value
+        if not (isinstance(call, ast.Call) and isinstance(call.func, ast.Name) and call.func.id == "dict" and not call.args):
+            fail(call, "kwargs = dict(...)")
+        d = {k.arg: ast.unparse(k.value) for k in call.keywords}
+        if set(d) != {"skipna", "initial_value"}:
+            fail(call, "kwargs keys")
+        rows.append((cond, d["skipna"], d["initial_value"], ast.unparse(cr[0].value)))
+
+    node = chains[0]
+    while True:
+        branch(ast.unparse(node.test), node.body)
+        if len(node.orelse) == 1 and isinstance(node.orelse[0], ast.If):
+            node = node.orelse[0]
+        else:
+            branch("else", node.orelse)
+            break
+    return rows
+
+
 def gen_tables(trees):
     kern = []
     counters = []
@@ -439,6 +475,10 @@ def gen_tables(trees):
     out.append("Definition gen_unify_sites : list (string * list bool) :=\n  [" + ";\n   ".join(
         f'("{k}", [' + "; ".join("true" if b else "false" for b in v) + '])' for k, v in gu) + "].\n")
     out.append("Definition gen_cached_properties : list string := " + coq_str_list(gc) + ".\n")
+    nd = nanops_dispatch(trees["nanops"])
+    out.append("(* nanops.reduce_1d: condition on the reducer name, skipna, initial value, reduction of the chunk results *)")
+    out.append("Definition gen_nanops_dispatch : list (string * string * string * string) :=\n  [" + ";\n   ".join(
+        '("' + '", "'.join(x.replace('"', "'") for x in r) + '")' for r in nd) + "].\n")
     out.append("Definition gen_counter_dtypes : list (string * string * string) :=\n  [" + ";\n   ".join(f'("{a}", "{b}", "{c}")' for a, b, c in sorted(counters)) + "].\n")
     out.append("(* kernel, names written through a subscript, names bound to fresh allocations, parameters *)")
     out.append("Definition gen_write_sets : list (string * list string * list string * list string) :=\n  [" + ";\n   ".join(
